@@ -175,11 +175,13 @@ def class_disjoint(cls, ranges):
 class Interp:
     """Abstract execution of one function; collects the join of all returned values."""
 
-    def __init__(self, ctx, funcs, consts=None, depth=0):
+    def __init__(self, ctx, funcs, consts=None, depth=0, watch=()):
         self.ctx = ctx
         self.funcs = funcs          # name -> FuncInfo of analysable helpers (for calls)
         self.depth = depth
         self.notes = []
+        self.watch = set(watch)     # local names whose assigned abstract values are recorded
+        self.watched = {}
 
     def run(self, fi, args):
         params = [p for p in fi.params]
@@ -223,6 +225,9 @@ class Interp:
             e = dict(env)
             for t in st.targets:
                 self._bind(t, v, e)
+                if isinstance(t, ast.Name) and t.id in self.watch:
+                    av = self._absstr(v)
+                    self.watched[t.id] = av if t.id not in self.watched else join(self.watched[t.id], av)
             return [e]
         if isinstance(st, ast.If):
             res = self._cond(st.test, env)
@@ -235,6 +240,15 @@ class Interp:
             return out
         if isinstance(st, ast.Pass):
             return [env]
+        if isinstance(st, (ast.While, ast.For)):
+            # one abstract pass over the body for the watched assignments; afterwards forget what it assigns
+            saved_returns = list(self.returns)
+            self._block(st.body, dict(env))
+            e = dict(env)
+            for sub in ast.walk(st):
+                if isinstance(sub, ast.Name) and isinstance(sub.ctx, ast.Store):
+                    e[sub.id] = TOP
+            return [e]
         # anything else: forget everything it may assign
         e = dict(env)
         for sub in ast.walk(st):
@@ -538,6 +552,8 @@ class Interp:
             recv = self._eval(f.value, env)
             m = f.attr
             rs = self._absstr(recv)
+            if isinstance(recv, str) and m == 'join':
+                rs = None
             if isinstance(rs, S):
                 if m == 'upper':
                     chars = set()
